@@ -1020,6 +1020,7 @@ func (d *drv) randomForge(r *rand.Rand, p string) op {
 		t.N++
 		if _, known := d.attrs[t.ID]; known {
 			t.ID = fresh
+			t.F = r.Intn(400)*64 + t.ID%64
 			fresh++
 		}
 		xs = append(xs, t)
@@ -1027,6 +1028,7 @@ func (d *drv) randomForge(r *rand.Rand, p string) op {
 		t := next()
 		if _, known := d.attrs[t.ID]; known {
 			t.ID = fresh
+			t.F = r.Intn(400)*64 + t.ID%64
 			fresh++
 		}
 		t.K = []string{"tamper", "badsig", "rehash"}[r.Intn(3)]
@@ -1039,6 +1041,7 @@ func (d *drv) randomForge(r *rand.Rand, p string) op {
 		t := next()
 		if _, known := d.attrs[t.ID]; known {
 			t.ID = fresh
+			t.F = r.Intn(400)*64 + t.ID%64
 			fresh++
 		}
 		t.K = "lowfee"
